@@ -14,7 +14,6 @@ import (
 	"sync"
 	"time"
 
-	"github.com/k0kubun/pp"
 	"github.com/pkg/errors"
 	"github.com/xelaj/errs"
 
@@ -275,7 +274,9 @@ func (m *MTProto) startReadingResponses(ctx context.Context) {
 						m.warnError(errors.Wrap(err, "can't reconnect"))
 					}
 				default:
-					check(err)
+					// message can't be read or processed, but it's not a reason to stop reading other
+					// messages (and kill whole process): report it and go on
+					m.warnError(err)
 				}
 			}
 		}
@@ -368,8 +369,6 @@ messageTypeSwitching:
 		// игнорим, пришло и пришло, че бубнить то
 
 	case *objects.BadMsgNotification:
-		pp.Println(message)
-		panic(message) // for debug, looks like this message is important
 		return BadMsgErrorFromNative(message)
 
 	case *objects.RpcResult:
